@@ -156,15 +156,17 @@ def doMatchStruct (vt : GoTy) (rest : List Char) (tv : List Char) :
   match readToken rest true with
   | none => none
   | some (tok, sp) =>
-    if vt.name == "" && vt.isStructKind then some (true, rest)
-    else if tok.isEmpty || tok == [':'] || tok == ['>'] then some (String.ofList tv == vt.name, rest)
+    -- an anonymous struct answers to any name, qualified or not (D23: it used to answer before the
+    -- qualifier was consumed)
+    let anon := vt.name == "" && vt.isStructKind
+    if tok.isEmpty || tok == [':'] || tok == ['>'] then some (anon || String.ofList tv == vt.name, rest)
     else if tok != ['.'] then none
     else
       match readToken sp false with
       | none => none
       | some (tv2, sp2) =>
         match tv2 with
-        | c :: _ => if !isIdent0 c then none else some (String.ofList tv2 == vt.name, sp2)
+        | c :: _ => if !isIdent0 c then none else some (anon || String.ofList tv2 == vt.name, sp2)
         | [] => none
 
 def isKeyType : Ty → Bool
